@@ -334,9 +334,9 @@ pub proof fn lemma_scheme_has_sep(t: Seq<u8>)
 // ---- the forwarded request (RFC 7230 5.4 / 5.7): same method, origin-form target and version; header lines in order;
 //      only the Host header normalised to the destination; a Host header is added when the client sent none ----
 pub open spec fn crlf() -> Seq<u8> { seq![13u8, 10u8] }
-pub open spec fn host_text(host: Seq<u8>, port: u16) -> Seq<u8> { if port == 80 || port == 443 { host } else { host + seq![58u8] + dec(port) } }
-pub open spec fn host_line(host: Seq<u8>, port: u16) -> Seq<u8> { seq![72u8, 111u8, 115u8, 116u8, 58u8, 32u8] + host_text(host, port) + crlf() }
-pub open spec fn request_line(method: Seq<u8>, path: Seq<u8>, version: Seq<u8>) -> Seq<u8> {
+pub open spec fn vx_host_text(host: Seq<u8>, port: u16) -> Seq<u8> { if port == 80 || port == 443 { host } else { host + seq![58u8] + dec(port) } }
+pub open spec fn vx_host_line(host: Seq<u8>, port: u16) -> Seq<u8> { seq![72u8, 111u8, 115u8, 116u8, 58u8, 32u8] + vx_host_text(host, port) + crlf() }
+pub open spec fn vx_request_line(method: Seq<u8>, path: Seq<u8>, version: Seq<u8>) -> Seq<u8> {
     method + seq![32u8] + (if path.len() == 0 { seq![47u8] } else { path }) + seq![32u8] + version + crlf()
 }
 pub open spec fn fwd_one(h: Seq<u8>, hl: Seq<u8>) -> Seq<u8> { if h.len() == 0 { Seq::<u8>::empty() } else if is_host_ci(h) { hl } else { h + crlf() } }
@@ -345,8 +345,8 @@ pub open spec fn fwd_headers(hs: Seq<VStr>, hl: Seq<u8>) -> Seq<u8> decreases hs
 }
 pub open spec fn any_host(hs: Seq<VStr>) -> bool { exists|i: int| 0 <= i < hs.len() && hs[i]@.len() > 0 && is_host_ci(#[trigger] hs[i]@) }
 pub open spec fn forward_text(method: Seq<u8>, path: Seq<u8>, version: Seq<u8>, host: Seq<u8>, port: u16, hs: Seq<VStr>) -> Seq<u8> {
-    let hl = host_line(host, port);
-    request_line(method, path, version) + fwd_headers(hs, hl) + (if any_host(hs) { Seq::<u8>::empty() } else { hl }) + crlf()
+    let hl = vx_host_line(host, port);
+    vx_request_line(method, path, version) + fwd_headers(hs, hl) + (if any_host(hs) { Seq::<u8>::empty() } else { hl }) + crlf()
 }
 pub proof fn lemma_fwd_step(hs: Seq<VStr>, i: int, hl: Seq<u8>)
     requires 0 <= i < hs.len()
@@ -381,3 +381,14 @@ pub open spec fn header_end(a: Seq<u8>) -> int { if exists|n: int| header_end_at
 pub proof fn lemma_header_end(a: Seq<u8>, n: int)
     requires header_end_at(a, n) ensures header_end(a) == n
 { let q = choose|q: int| header_end_at(a, q); if q < n { } else if n < q { } }
+// the same as an automatic fact: fires from the term first_occ_at(t, p, pos) that str::find's contract produces
+pub broadcast proof fn lemma_scheme_pos_auto(t: Seq<u8>, p: Seq<u8>, pos: int)
+    requires occurs_at(t, lit_http(), 0) || occurs_at(t, lit_https(), 0), p.len() == 3, p[0] == 58u8, p[1] == 47u8, p[2] == 47u8, #[trigger] first_occ_at(t, p, pos), str_wf(t)
+    ensures occurs_at(t, lit_http(), 0) ==> pos == 4 && !occurs_at(t, lit_https(), 0), occurs_at(t, lit_https(), 0) ==> pos == 5 && !occurs_at(t, lit_http(), 0),
+            boundary(t, pos + 3), pos + 3 <= t.len()
+{
+    assert(p =~= lit_sep());
+    lemma_scheme_pos(t, pos);
+    let sp = t.subrange(pos, pos + 3);
+    assert(sp[2] == t[pos + 2]); assert(t[pos + 2] == 47u8);
+}
